@@ -160,6 +160,12 @@ Definition second_order_ff (thr : T) (evs : list (list T)) (Vs Qs : list Matc) (
   so_loop na nk no omega true (zip_segs evs dts NTs (fst rest) (snd rest))
           (a3zero Op na nk no) (a5zero na na nk nk no).
 
+(* PulseSequence.get_filter_function(omega, order=2) on a fresh pulse: propagators and times from
+   numeric.diagonalize / PulseSequence.t, no intermediates *)
+Definition second_order_from_eig (thr : T) (evs : list (list T)) (Vs : list Matc) (omega : list T)
+           (basis nopers : list Matc) (ncoeffs : list (list T)) (dts : list T) : Arr5 :=
+  second_order_ff thr evs Vs (propagators Op d evs Vs dts) omega basis nopers ncoeffs dts (times Op dts) (None, None).
+
 (* the intermediates cached by calculate_control_matrix_from_scratch(cache_intermediates=True) *)
 Definition cached_intermediates (thr : T) (evs : list (list T)) (Vs Qs : list Matc) (omega : list T)
            (basis nopers : list Matc) (ncoeffs : list (list T)) (dts ts : list T) : Interm :=
